@@ -83,14 +83,14 @@ func seedDocs(f *testing.F, prefix []byte) {
 func FuzzC06Bytes(f *testing.F) {
 	p := Prop[C06Case]{ID: "C06", Sub: "robust", Run: runC06}
 	register(p)
-	for k := 0; k < 5; k++ {
+	for k := 0; k < 6; k++ {
 		seedDocs(f, []byte{byte(k), 17})
 	}
 	f.Fuzz(func(t *testing.T, data []byte) {
 		if len(data) < 2 || len(data) > 1<<16 {
 			return
 		}
-		c := C06Case{Kind: int(data[0]) % 5, Arg: []byte{data[1], data[1] >> 1, data[1] >> 2, 0, 21, 7, 0, 21}, Input: data[2:], Src: "native-fuzz"}
+		c := C06Case{Kind: int(data[0]) % 6, Arg: []byte{data[1], data[1] >> 1, data[1] >> 2, 0, 21, 7, 0, 21}, Input: data[2:], Src: "native-fuzz"}
 		if msg := safeRun(runC06, c); msg != "" {
 			reportViolation("C06", "robust", c, msg)
 			t.Fatalf("%s", msg)
